@@ -47,7 +47,7 @@ func cfgFor(id string) tierCfg {
 	if c, ok := tiers[id]; ok {
 		return c
 	}
-	return tierCfg{QuickRuns: 2000, ThoroughRuns: 200000, Workers: 16}
+	return tierCfg{QuickRuns: 6400, ThoroughRuns: 400000, Workers: 16}
 }
 
 type WorkerStats struct {
